@@ -63,7 +63,7 @@ def vec(v):
 
 
 def scenario_key(rec):
-    return repr([rec[k] for k in ("smp", "mu0", "var0", "w0", "kind", "rel", "vfl", "uw", "um", "uv")])
+    return repr([rec[k] for k in ("smp", "mu0", "var0", "w0", "kind", "rel", "vfl", "uw", "um", "uv", "cur")])
 
 
 def run_real(em, rec):
@@ -91,6 +91,7 @@ def run_real(em, rec):
         prior.variances = col(rec["var0"])
         val = float(fr(rec["rel"]["val"]))
         m = em.GMMMachine(C, trainer="map", ubm=prior, mean_var_update_threshold=cthr)
+        m.means = col(rec["cur"])       # a warm start: the machine's means need not be the prior's
         map_gmm_m_step(m, st, update_means=rec["um"], update_variances=rec["uv"], update_weights=rec["uw"],
                        reynolds_adaptation=rec["rel"]["reynolds"], relevance_factor=val, alpha=val,
                        mean_var_update_threshold=cthr)
